@@ -501,16 +501,18 @@ def _contraction(p, q):
         elif space_p == "v" or space_q == "v":
             return KroneckerDelta(p_idx, q_idx)
         else:
-            return (KroneckerDelta(p_idx, q_idx) *
-                    KroneckerDelta(q_idx, Index('a', above_fermi=True)))
+            # a fresh, uniquely named virtual index: a raw Index('a') prints
+            # like every other index named 'a'
+            a = Indices().get_generic_indices(virt=1)[("virt", "")][0]
+            return (KroneckerDelta(p_idx, q_idx) * KroneckerDelta(q_idx, a))
     elif isinstance(p, Fd) and isinstance(q, F):
         if space_p == "v" or space_q == "v":
             return S.Zero
         elif space_p == "o" or space_q == "o":
             return KroneckerDelta(p_idx, q_idx)
         else:
-            return (KroneckerDelta(p_idx, q_idx) *
-                    KroneckerDelta(q_idx, Index('i', below_fermi=True)))
+            i = Indices().get_generic_indices(occ=1)[("occ", "")][0]
+            return (KroneckerDelta(p_idx, q_idx) * KroneckerDelta(q_idx, i))
     else:  # vanish if 2xAnnihilator or 2xCreator
         return S.Zero
 
